@@ -42,7 +42,7 @@ def main():
             add(m, {"mode": "ignore"})
         cands = models.linear_candidates(rng, m)
         add(m, {"mode": "custom", "ops": rng.sample(cands, rng.randint(1, min(2, len(cands))))})
-    recs, crashed = pv.run_driver_resilient(exe, scen, timeout=3000)
+    recs, crashed = pv.run_driver_resilient(exe, scen, timeout=3000, scen_timeout=180)
     byid = {r["id"]: r for r in recs if r.get("e") == "Q"}
     ev, sc_of = [], {}
     for s in scen:
